@@ -60,6 +60,24 @@ partial def runCalls (fix : Bool) (bi : Nat) (stats : List (Nat × TaskStats)) :
     let j := arr (r.2.map fun ko => arr [toJson ko.1, arr (ko.2.map outJson)])
     runCalls fix bi r.1 rest (j :: acc) t
 
+/-- branch tags of a sequence of post-processing batches (same tags as `run`) -/
+partial def ppTags (stats : List (Nat × TaskStats)) : List (List (Nat × TSample)) → List String → List String
+  | [], tags => tags
+  | call :: rest, tags =>
+    let r := calculate current 1 stats call
+    let groups := groupByTask call
+    let t := (groups.zip r.2).foldl (fun t (g, o) => t ++ groupTags stats g o.2) tags
+    let t := if call.isEmpty then t ++ ["empty-batch"] else t
+    ppTags r.1 rest t
+
+def getEvent (j : Json) : Except String DEvent :=
+  match j with
+  | Json.str "pp" => pure .postProcess
+  | _ => do
+    let xs ← j.getArr?
+    let ss ← xs.toList.mapM getSample
+    pure (.update ss)
+
 def handle (op : String) (a : Json) : Except String Json := do
   match op with
   | "run" =>
@@ -76,6 +94,14 @@ def handle (op : String) (a : Json) : Except String Json := do
       xs.toList.mapM getSample
     let (stats, outs, tags) := runCalls fix bi [] calls [] []
     return ok (Json.mkObj [("calls", arr outs), ("stats", arr (stats.map statsJson))]) tags.eraseDups
+  | "pp_run" =>
+    -- Driver.update_samples / Driver.post_process_samples in front of SamplePostprocessor.__call__
+    let evsJ ← getArr a "events"
+    let evs ← evsJ.mapM getEvent
+    let r := driverRun [] [] evs
+    let tags := ppTags [] (driverBatches [] evs) []
+    let recs := r.2.map fun c => arr (c.map fun ko => arr [toJson ko.1, outJson ko.2])
+    return ok (Json.mkObj [("runs", arr recs), ("buffered", toJson r.1.1.length), ("stats", arr (r.1.2.map statsJson))]) tags.eraseDups
   | "sort" =>
     -- stable sort by absolute time (correspondence with Python's `sorted(key=…)`); returns the permutation of ids
     let xs ← getArr a "abs"
